@@ -183,16 +183,25 @@ inline void announce(const RunSpec& rs) { if (out_fp()) { fprintf(out_fp(), "CFG
 // silence library chatter (pomerol prints progress on std::cout and errors on std::cerr)
 struct NullBuf : std::streambuf { int overflow(int c) override { return c; } };
 
+// resident set size in MiB (pomerol leaks by design - raw new in Lattice, transpose() ... - so a worker that has grown too
+// large ends early and is restarted by the runner on its remaining seeds)
+inline long rss_mib() {
+    FILE* f = fopen("/proc/self/statm", "r"); if (!f) return 0;
+    long size = 0, res = 0; int n = fscanf(f, "%ld %ld", &size, &res); fclose(f);
+    return n == 2 ? res * (sysconf(_SC_PAGESIZE) / 1024) / 1024 : 0;
+}
+
 inline int harness_main(int argc, char** argv, const char* name, const RunFn& run_one) {
     uint64_t seed_start = 1, seed_step = 1; long max_runs = 1; double time_limit = 1e18;
     RunSpec base;
     bool verbose = false;
-    long watchdog = 150;
+    long watchdog = 150, max_rss = 1500;
     signal(SIGVTALRM, watchdog_handler);
     for (int i = 1; i < argc; i++) {
         std::string a = argv[i];
         auto next = [&]() -> std::string { if (i + 1 >= argc) { fprintf(stderr, "missing value for %s\n", a.c_str()); exit(2); } return argv[++i]; };
         if (a == "--watchdog") watchdog = atol(next().c_str());
+        else if (a == "--max-rss") max_rss = atol(next().c_str());
         else if (a == "--seed-start") seed_start = strtoull(next().c_str(), 0, 10);
         else if (a == "--seed-step") seed_step = strtoull(next().c_str(), 0, 10);
         else if (a == "--max-runs") max_runs = atol(next().c_str());
@@ -240,6 +249,7 @@ inline int harness_main(int argc, char** argv, const char* name, const RunFn& ru
         if (rs.want_trace) o << ",\"trace\":\"" << jesc(oc.trace) << "\"";
         o << "}";
         fprintf(out, "%s\n", o.str().c_str()); fflush(out);
+        if ((k & 31) == 31 && rss_mib() > max_rss) { fprintf(out, "RECYCLE rss=%ld MiB\n", rss_mib()); break; }
     }
     fprintf(out, "DONE\n"); fflush(out);
     std::cout.rdbuf(old_cout); std::cerr.rdbuf(old_cerr);
